@@ -986,12 +986,13 @@ class FnEmitter:
         # R10: declared type/receiver substitutions (dependency types -> stub types; `&self` -> `&mut self`
         #      where a ghost log must be updated through the receiver).  Exact text, counted.
         for (a_, b_) in spec.substs:
-            n_sig = head.count(a_)
-            n_body = body.count(a_)
+            pat_ = r'\s*'.join(re.escape(ch_) for ch_ in a_.split())
+            n_sig = len(re.findall(pat_, head))
+            n_body = len(re.findall(pat_, body))
             if n_sig + n_body == 0:
                 raise GenError('lost anchor: subst %r does not occur in %s' % (a_, spec.qname), spec.qname)
-            head = head.replace(a_, b_)
-            body = body.replace(a_, b_)
+            head = re.sub(pat_, lambda m_: b_, head)
+            body = re.sub(pat_, lambda m_: b_, body)
             self.fire('R10', '%r -> %r (%d times)' % (a_, b_, n_sig + n_body))
         lines = []
         cmap = []   # (relative line index, clause)
